@@ -1,6 +1,7 @@
 package props
 
 import (
+	"encoding/binary"
 	"time"
 	"encoding/base64"
 	"fmt"
@@ -38,7 +39,7 @@ func (c03) Gen(seed uint64, run int, tier string) *Plan {
 		switch x := r.Intn(100); {
 		case x < 50:
 			// A: variant 0 exact, 1 trailing bytes, 2 truncated; B agent; C callback; D seed; L[0] = amount
-			v := []int{0, 0, 1, 1, 1, 2}[r.Intn(6)]
+			v := []int{0, 0, 1, 1, 1, 2, 3}[r.Intn(7)]
 			p.Actions = append(p.Actions, Action{Kind: "callback", A: v, B: d, C: r.Intn(len(world.Callbacks)), D: r.Intn(1 << 30), L: []int{1 + r.Intn(7)}})
 			if r.Intn(12) == 0 {
 				// a process that reports its output in several packages under the one request id
@@ -58,8 +59,13 @@ func (c03) Gen(seed uint64, run int, tier string) *Plan {
 			p.Actions = append(p.Actions, Action{Kind: "reregister", B: d})
 		case x < 78:
 			p.Actions = append(p.Actions, Action{Kind: "checkin-meta", B: d, A: r.Intn(3), D: r.Intn(1 << 30)})
-		case x < 90:
+		case x < 85:
 			p.Actions = append(p.Actions, Action{Kind: "checkin", B: d})
+		case x < 90:
+			// a registration that names a session which exists already, with another key and other
+			// metadata: A=0 its header carries agent id 0 (only the encrypted part names the session),
+			// A=1 the session has been marked dead before, A=2 plain
+			p.Actions = append(p.Actions, Action{Kind: "forge-register", B: d, A: r.Intn(3), D: r.Intn(1 << 30)})
 		default:
 			if p.Policy.Name != "atomic" {
 				p.Actions = append(p.Actions, Action{Kind: "race-register", D: r.Intn(1 << 30)})
@@ -168,6 +174,8 @@ func (c03) Exec(p *Plan, dir string) *Result {
 				res.Violate("C03", "session-count", "re-registration-created-session", fmt.Sprintf("re-registration of %s changed the number of sessions from %d to %d", d.NameID(), before, len(w.TS.Agents.Agents)), w.Sim)
 			}
 			res.Probe("re-registrations")
+		case "forge-register":
+			st.forgeRegister(a)
 		case "checkin":
 			w.Checkin(w.Demons[a.B%len(w.Demons)])
 		case "checkin-meta":
@@ -234,6 +242,88 @@ func (c03) Exec(p *Plan, dir string) *Result {
 	res.NonTrivial = res.Probes["callbacks-checked"]+res.Probes["registrations"] > 0
 	res.finish(w)
 	return res
+}
+
+// forgeRegister: somebody who knows the id of a session sends a registration for it with a key and
+// metadata of his own. Whatever the answer is, there is still one session with that id, what the
+// operators are told about it is what its record holds, and an answer that claims success is
+// encrypted under the key the record holds.
+func (st *c03State) forgeRegister(a Action) {
+	w, res := st.w, st.res
+	d := w.Demons[a.B%len(w.Demons)]
+	ag := w.TS.AgentInstance(int(d.ID))
+	if ag == nil {
+		return
+	}
+	cr := simrt.NewRand(uint64(a.D) + 11)
+	if a.A == 1 {
+		st.wit.SendJSON(world.MakePkg(world.EvSession, world.SessMark, st.wit.Name, map[string]any{"AgentID": d.NameID(), "Marked": "Dead"}))
+		w.Sim.Settle()
+		res.Probe("registrations-for-a-dead-sessions-id")
+		defer func() {
+			st.wit.SendJSON(world.MakePkg(world.EvSession, world.SessMark, st.wit.Name, map[string]any{"AgentID": d.NameID(), "Marked": "Alive"}))
+			w.Sim.Settle()
+		}()
+	}
+	fake := &world.Demon{ID: d.ID, Key: randBytes(cr, 32), IV: randBytes(cr, 16), Meta: sentMeta(cr)}
+	pkt := fake.InitPacket()
+	if a.A == 0 {
+		binary.BigEndian.PutUint32(pkt[8:], 0)
+		res.Probe("registrations-with-agent-id-0-in-the-header")
+	}
+	st.wit.Pump()
+	mark := len(st.wit.Events)
+	snapBefore := TakeSnap(w, SnapOpts{})
+	c := w.Do(world.AgentReq{Port: d.Port, URI: d.URI, Body: pkt})
+	st.wit.Pump()
+	res.Probe("forged-registrations")
+	n := 0
+	for _, s := range w.TS.Agents.Agents {
+		if s.NameID == d.NameID() {
+			n++
+		}
+	}
+	if n != 1 {
+		res.Violate("C03", "session-count", "registration-for-existing-id", fmt.Sprintf("after a registration naming the existing session %s there are %d sessions with that id", d.NameID(), n), w.Sim)
+		return
+	}
+	rec := w.TS.AgentInstance(int(d.ID))
+	for _, e := range st.wit.Events[mark:] {
+		if e.Pkg.Head.Event != world.EvSession || e.Pkg.Body.SubEvent != world.SessNew {
+			continue
+		}
+		info := e.Pkg.Body.Info
+		if id, _ := info["NameID"].(string); id != d.NameID() {
+			continue
+		}
+		enc, _ := info["Encryption"].(map[string]any)
+		k64, _ := enc["AESKey"].(string)
+		kb, _ := base64.StdEncoding.DecodeString(k64)
+		h, _ := info["Hostname"].(string)
+		if rec == nil || string(kb) != string(rec.Encryption.AESKey) || h != rec.Info.Hostname {
+			res.Violate("C03", "registration", "announced-session-differs-from-record", fmt.Sprintf("operators were told of a new session %s (host %q, key %x...) while the session record holds host %q, key %x...", d.NameID(), h, kb[:min(4, len(kb))], rec.Info.Hostname, rec.Encryption.AESKey[:4]), w.Sim)
+			return
+		}
+	}
+	if c.Done && c.Rec.Status() == 200 {
+		// a success answer is the agent id under the session key - the key the record holds
+		holder := &world.Demon{ID: d.ID, Key: rec.Encryption.AESKey, IV: rec.Encryption.AESIv}
+		hdr := &world.Demon{ID: 0, Key: rec.Encryption.AESKey, IV: rec.Encryption.AESIv}
+		if !world.RegistrationReplyOK(c, holder) && !(a.A == 0 && world.RegistrationReplyOK(c, hdr)) {
+			res.Violate("C03", "registration-reply", "not-under-the-recorded-key", fmt.Sprintf("a registration naming the existing session %s was answered with 200, but not with the agent id under the key the session record holds", d.NameID()), w.Sim)
+			return
+		}
+	}
+	// the session record is what it was: the genuine agent keeps working with its own key
+	var eff []string
+	for _, k := range snapBefore.Diff(TakeSnap(w, SnapOpts{})) {
+		if strings.HasSuffix(k, ".info") || strings.HasSuffix(k, ".key") || strings.HasSuffix(k, ".id") {
+			eff = append(eff, k)
+		}
+	}
+	if len(eff) > 0 {
+		res.Violate("C03", "registration", "existing-session-rewritten", fmt.Sprintf("a registration naming the existing session %s (sent by somebody else, with another key) changed %v", d.NameID(), eff), w.Sim)
+	}
 }
 
 // invariants: session ids pairwise distinct; the id of a session object never changes.
@@ -347,7 +437,10 @@ func (st *c03State) callback(a Action) {
 	}
 	cr := simrt.NewRand(uint64(a.D) + 3)
 	var sent world.Sent
+	var marks []world.PBMark
+	world.MarkTrace = &marks
 	body := cb.Build(cr, &sent)
+	world.MarkTrace = nil
 	variant := a.A
 	extra := 0
 	if len(a.L) > 0 {
@@ -363,6 +456,17 @@ func (st *c03State) callback(a Action) {
 		} else {
 			body = body[:len(body)-extra]
 		}
+	case 3:
+		// one of the byte strings announces one of the four largest 32-bit lengths (the packet
+		// cannot hold it, whatever follows): the packet is incomplete
+		pre := world.TopLevelPrefixes(marks, body)
+		if cb.Repeats || len(pre) == 0 {
+			variant = 0
+		} else {
+			body = append([]byte(nil), body...)
+			binary.BigEndian.PutUint32(body[pre[extra%len(pre)]:], 0xfffffffc+uint32(a.D%4))
+			res.Probe("length-prefix-near-2^32")
+		}
 	}
 	// a task may report in several packages under its one request id (output chunks of a running
 	// process): a callback that is not the final one of its task leaves the id open, and the next
@@ -370,7 +474,7 @@ func (st *c03State) callback(a Action) {
 	// (only the plain output package: that it leaves its task open is the one case Command.c and
 	// the teamserver's PROC_CREATE handler spell out)
 	var rid uint32
-	chunk := cb.Name == "output" && variant != 2
+	chunk := cb.Name == "output" && variant < 2
 	if open, ok := st.openRID[d]; ok && chunk && a.D%2 == 0 {
 		rid = open
 		res.Probe("further-output-under-one-request-id")
@@ -454,13 +558,13 @@ func (st *c03State) callback(a Action) {
 			}
 		}
 		res.Probe("fidelity-" + cb.Name)
-	case 2:
+	case 2, 3:
 		// cut short: the command's event must not be produced from partial data, and the session
 		// record must not change
 		res.Probe("truncated-callbacks")
 		for _, s := range sent.Strs {
 			if strings.Contains(t, s) {
-				res.Violate("C03", "completeness-check", cb.Name+":event-from-truncated-packet", fmt.Sprintf("agent %s: %s callback cut short by %d byte(s) still produced its console event: %s", d.NameID(), cb.Name, extra, short(t, 300)), w.Sim)
+				res.Violate("C03", "completeness-check", cb.Name+":event-from-truncated-packet", fmt.Sprintf("agent %s: %s callback %s still produced its console event: %s", d.NameID(), cb.Name, map[bool]string{true: fmt.Sprintf("cut short by %d byte(s)", extra), false: "with a byte string announcing more than the packet can hold"}[variant == 2], short(t, 300)), w.Sim)
 				return
 			}
 		}
